@@ -239,7 +239,15 @@ func GenModel(rng *rand.Rand, o GenOpts) *Model {
 				t.Module = ""
 			}
 			t.MetaNil = false
+			if !o.DSLValid && rng.Intn(4) == 0 {
+				// a type without any metadata object inside a modular model (legal in hand-written / API JSON)
+				t.MetaNil = true
+				t.Module, t.File = "", ""
+			}
 			for i := range t.Rels {
+				if t.MetaNil {
+					break
+				}
 				if rng.Intn(2) == 0 { // relation contributed by an extension
 					t.Rels[i].Module = pick(rng, modules)
 					t.Rels[i].File = pick(rng, files)
@@ -261,6 +269,9 @@ func GenModel(rng *rand.Rand, o GenOpts) *Model {
 				m.Conds[i].Module = ""
 			}
 		}
+	}
+	if !o.DSLValid {
+		emptyRelSometimes(rng, m, 6)
 	}
 	return m
 }
